@@ -15,7 +15,24 @@ from sa.model import Repo  # noqa: E402
 from sa.roles import bound_names  # noqa: E402
 
 repo = Repo(sys.argv[1] if len(sys.argv) > 1 else None)
-out = {"functions": sorted(repo.functions), "locals": {q: sorted(bound_names(fi.node)) for q, fi in sorted(repo.functions.items())}}
+import ast  # noqa: E402
+
+
+def _module_globals(tree):
+    names = set()
+    for st in tree.body:
+        for n in ast.walk(st) if not isinstance(st, (ast.FunctionDef, ast.AsyncFunctionDef, ast.ClassDef)) else []:
+            if isinstance(n, ast.Name) and isinstance(n.ctx, ast.Store):
+                names.add(n.id)
+        if isinstance(st, (ast.FunctionDef, ast.AsyncFunctionDef, ast.ClassDef)):
+            names.add(st.name)
+        if isinstance(st, (ast.Import, ast.ImportFrom)):
+            names |= {(a.asname or a.name).split(".")[0] for a in st.names}
+    return sorted(names)
+
+
+out = {"functions": sorted(repo.functions), "locals": {q: sorted(bound_names(fi.node)) for q, fi in sorted(repo.functions.items())},
+       "globals": {name: _module_globals(m.tree) for name, m in sorted(repo.modules.items())}}
 with open(N.VOCAB_FILE, "w") as f:
     json.dump(out, f, indent=0, sort_keys=True)
 print(f"{len(out['functions'])} functions, {sum(len(v) for v in out['locals'].values())} locals -> {N.VOCAB_FILE}")
